@@ -692,7 +692,7 @@ func replayC17(r *fw.Run, raw json.RawMessage) {
 func init() {
 	fw.Register(&fw.Engine{
 		ID: "C17", Level: "exploration",
-		Rule: "the matrix operation in {raw Read, raw ReadBytes, raw Write, client receive, client Call, client Send} x transport in {in-memory pipe, unix socketpair, TCP pair (white-box constructor of the library's connection), real Connection over a unix socket, bridge subprocess} x {cancel, deadline} x instant in {before the call, blocked with nothing in flight, blocked after a partial frame was received, after completion} (writes: blocked on a peer that does not read, 8 MiB), each cell repeated with seeded cancel offsets 0..3 ms. Oracle per cell: the operation returns within 10 s of the context's end (else the goroutine dump must show it parked in the library) with context.Canceled / DeadlineExceeded / a timeout error - or, for 'after completion', success with the right bytes; then no goroutine remains inside the library's connection; then a read with a live context must BLOCK (not fail at once on a stale deadline) until the peer sends a fresh frame and must return exactly that frame, optionally preceded by a suffix of the partial frame that was in flight; a follow-up write must deliver its bytes intact after a prefix of the cancelled write; on client transports a complete Call on the same Connection must succeed. Plus the service side: idle, mid-frame and used connections and handlers blocked in Call.Conn Read/Write all end within 10 s of cancelling the serving context, handlers see a context error, active count returns to 0. non-trivial = any instant other than 'after completion'; distinct by cell + offset.",
+		Rule: "the matrix operation in {raw Read, raw ReadBytes, raw Write, client receive, client Call, client Send} x transport in {in-memory pipe, unix socketpair, TCP pair (white-box constructor of the library's connection), real Connection over a unix socket, bridge subprocess} x {cancel, deadline} x instant in {before the call, blocked with nothing in flight, blocked after a partial frame was received, after completion} (writes: blocked on a peer that does not read, 8 MiB), each cell repeated with seeded cancel offsets 0..3 ms. Oracle per cell: the operation returns within 10 s of the context's end (else the goroutine dump must show it parked in the library) with context.Canceled / DeadlineExceeded / a timeout error - or, for 'after completion', success with the right bytes; then no goroutine remains inside the library's connection; then a read with a live context must BLOCK (not fail at once on a stale deadline) until the peer sends a fresh frame and must return exactly that frame, optionally preceded by a suffix of the partial frame that was in flight; a follow-up write must deliver its bytes intact after a prefix of the cancelled write; on client transports a complete Call on the same Connection must succeed. Plus the service side: idle, mid-frame and used connections and handlers blocked in Call.Conn Read/Write all end within 10 s of cancelling the serving context, handlers see a context error, active count returns to 0. non-trivial = any instant other than 'after completion'; distinct by cell + offset. Modes: cancel, deadline, and explicit cancel of a context that also has a distant deadline; further instant: cancel followed at once by Close of the connection (goroutine-leak monitor only). Follow-up operations use a context without deadline in two cases out of three; a third operation follows.",
 		Assumptions: []string{"bounded progress: 10 s (normal latency: well under a millisecond)", "the 4 ms 'must still block' window is one-sided: a follow-up read that fails or returns inside it is a violation"},
 		Run:         runC17, Replay: replayC17, CrashIsViolation: true, MinEvals: 50,
 		QuickTimeout: 15 * time.Minute, ThoroughTimeout: 60 * time.Minute,
